@@ -40,8 +40,8 @@ def _fresh(cfg_lo, cfg_hi, n, m):
 
 
 def gen_history(r, maxlen):
-    n = r.choice([1, 1, 2, 3, 4, 5])
-    m = r.randint(1, 50 // n)
+    n = r.choice([1, 1, 2, 3, 4, 5, 6])
+    m = r.randint(1, 60 // n)        # N*m > 52 exhausts the mantissa of x: queries must stay pure there too
     lo, hi = oc.gen_box(r, n)
     ctor = "double"
     if r.random() < 0.2:
